@@ -55,6 +55,7 @@ bool mc_in_task(void);
 void mc_api_begin(const char *api, int nonblocking);
 void mc_api_end(void);
 const char *mc_cur_api(void);
+const char *mc_last_api(void);   /* API call most recently begun and not ended, any task */
 int  mc_cur_api_nonblocking(void);
 
 enum mc_end { MC_END_DONE = 0, MC_END_QUIESCENT = 1, MC_END_HORIZON = 2 };
